@@ -381,18 +381,19 @@ def r03_5(ctx, prog, crate):
         ctx.check(ok, "R03.5", ["iter_count", "sample_size-times-len"], "iter_count is not sample_size * time_samples.len()", ic.where(0))
 
 
-def _root_local(b, op):
-    """Follow `&x` / copy / move chains of single-definition temporaries to the local they designate."""
+def _root_local(b, op, fields=False):
+    """Follow `&x` / copy / move chains of single-definition temporaries to the local they designate (with `fields`, also
+    through `&x.f`: the local a part of which is designated)."""
     if op["k"] not in ("copy", "move"):
         return None
     l = op["p"]["l"]
-    for _ in range(10):
-        defs = b.prov.defs.get(l, [])
-        if len(defs) != 1 or defs[0][0] != "S" or defs[0][3]["p"]["proj"]:
+    for _ in range(14):
+        defs = [d for d in b.prov.defs.get(l, []) if d[0] != "S" or not d[3]["p"]["proj"]]     # whole-local definitions (writes through a pointer held in l do not redefine l)
+        if len(defs) != 1 or defs[0][0] != "S":
             return l
         rv = defs[0][3]["rv"]
         src = rv["p"] if rv["k"] in ("ref", "rawptr") else (rv["o"]["p"] if rv["k"] == "use" and rv["o"]["k"] in ("copy", "move") else None)
-        if src is None or any(p["k"] != "deref" for p in src["proj"]):
+        if src is None or any(p["k"] != "deref" and not (fields and p["k"] == "field") for p in src["proj"]):
             return l
         l = src["l"]
     return l
@@ -421,7 +422,16 @@ def _reset_before_run(prog, b, l, run_call, loop):
         didrun = [(bi, s) for bi, si, s in fb.stmts() if s["k"] == "assign" and place_fields(s["p"]) == ("did_run",) and const_int(s["rv"].get("o", {"k": ""})) == 0 and uncond(bi)]
         if clears and counts and didrun:
             return True
-    return False
+    # the same reset written in place (or a reset helper spliced in by lib.inline): in this body, before the run, in the same
+    # iteration, on the context `l` itself
+    def here(bb):
+        il = b.innermost_loop(bb)
+        return b.dominates(bb, run_call.bb) and bb != run_call.bb and (il["header"] if il else None) == (loop["header"] if loop else None)
+    clears = [x for x in b.live_calls() if x.callee.endswith("SampleCollection::clear") and here(x.bb) and x.args and _root_local(b, x.args[0], fields=True) == l]
+    counts = [x for x in b.live_calls() if x.callee.endswith("clear_input_counts") and here(x.bb) and x.args and _root_local(b, x.args[0], fields=True) == l]
+    didrun = [bi for bi, si, s in b.stmts() if s["k"] == "assign" and place_fields(s["p"])[-1:] == ("did_run",) and const_int(s["rv"].get("o", {"k": ""})) == 0 and here(bi) and
+              _root_local(b, {"k": "copy", "p": {"l": s["p"]["l"], "proj": [], "ty": ""}}, fields=True) == l]
+    return bool(clears and counts and didrun)
 
 
 def r03_6(ctx, S, prog, crate):
